@@ -381,25 +381,45 @@ def _others(fname):
 # ----------------------------------------------------------------------------- output lines
 
 def line_formatters(F):
-    """converter functions returning String built by a format template; classified by the template"""
+    """converter functions returning a String whose every possible value (symbolic string synthesis over the function and its
+    helpers: templates, push_str/push, `&mut String` helpers, loops abstracted) has a recognisable line shape"""
+    from strsyn import StrSyn, NotSynthesisable
     out = {}
+    syn = StrSyn(F)
     for b in conv_bodies(F):
-        if b.kind != "fn" or "String" not in b.ret:
+        if b.kind != "fn" or b.ret != "alloc::string::String":
             continue
-        tb = Terms(F, b, inline_depth=0)
-        fcs = list(format_calls(F, b, tb))
-        if not fcs:
+        try:
+            res = syn.returns(b)
+        except NotSynthesisable:
             continue
-        txts = [template_text(fc["parts"]) or "" for fc in fcs]
+        alts, seen = [], set()
+        for r in res:
+            if r["parts"] is None:
+                continue
+            parts = []
+            for p in r["parts"]:        # adjacent literals are one piece of text
+                if p[0] == "lit" and parts and parts[-1][0] == "lit":
+                    parts[-1] = ("lit", parts[-1][1] + p[1])
+                elif not (p[0] == "lit" and p[1] == ""):
+                    parts.append(p)
+            key = tuple(p[:2] for p in parts)
+            if key not in seen:
+                seen.add(key)
+                alts.append(dict(parts=parts, site=b.loc(), guards=r["guards"]))
+        if not alts:
+            continue
+        txts = [template_text(a["parts"]) or "" for a in alts]
         kind = None
-        if any(t.startswith("# ") for t in txts):
+        if all(t.startswith("# ") for t in txts):
             kind = "comment"
         elif any(" @ " in t for t in txts):
             kind = "trade"
         elif any("DIVIDEND" in t.upper() for t in txts):
             kind = "dividend"
         if kind:
-            out[b.id] = (kind, b, tb, fcs)
+            alts.sort(key=lambda a: len(a["parts"]))
+            out[b.id] = (kind, b, Terms(F, b, inline_depth=0), alts)
     return out
 
 
@@ -419,21 +439,15 @@ def output_grammar(ctx, rep):
     for fid, (kind, fb, ftb, fcs) in lf.items():
         if kind == "comment":
             continue
-        # base + optional clause
-        base = fcs[0]
-        suffix = fcs[1:] if len(fcs) > 1 else []
         sites = [(cb, i, t) for cb, i, t in F.call_sites(lambda c, fid=fid: c == fid) if P.user_written(F, cb)]
         if not sites:
             rep.unresolved("R3", fb.short, "line formatter is never called")
         for cb, i, t in sites:
             ctb = Terms(F, cb, inline_depth=0)
             args = [ctb.operand(a) for a in t["args"]]
-            for label, fset in (("base", [base]), ("with-clause", [base] + suffix)):
-                if label == "with-clause" and not suffix:
-                    continue
-                parts = []
-                for fc in fset:
-                    parts += _subst_parts(F, fb, fc, args)
+            for k, alt in enumerate(fcs):       # every string the formatter can return is one whole line
+                label = "base" if k == 0 else "with-clause"
+                parts = _subst_parts(F, fb, alt, args)
                 toks, glued = tokenize(parts)
                 txt = " ".join(x if isinstance(x, str) else "{" + x.kind + "}" for x in toks)
                 bad = [h for h in toks if isinstance(h, Hole) and h.kind in ("text", "param")]
@@ -479,10 +493,13 @@ def output_pushes(F, rep, lf):
     b = conv[0]
     tb = Terms(F, b, inline_depth=0)
     headers = set()
+    comment_ids = {k for k, v in lf.items() if v[0] == "comment"}
     for hb in conv_bodies(F):
-        if hb.kind == "fn" and "String" in hb.ret and any(t["callee"] in lf and lf[t["callee"]][0] == "comment" for _, t in hb.calls()) \
-                and any(parse_callee(t["callee"])[2] == "join" for _, t in hb.calls()):
-            headers.add(hb.id)
+        if hb.kind == "fn" and hb.ret == "alloc::string::String" and hb.id not in lf:
+            fam = [hb] + [F.bodies[x] for x in F.children(hb.id)]
+            ncf = sum(1 for x in fam for _, t in x.calls() if t["callee"] in comment_ids)
+            if ncf >= 2:
+                headers.add(hb.id)
     n = 0
     spushes = [(i, t, tb.operand(t["args"][1]), root_of_operand(b, t["args"][0])) for i, t in b.calls()
                if parse_callee(t["callee"])[2] == "push" and "alloc::string::String" in (t.get("aty") or ["", ""])[1]]
@@ -502,12 +519,28 @@ def output_pushes(F, rep, lf):
     rep.count("output_line_pushes", n)
     if n < 4:
         rep.unresolved("R3", "pushes", f"only {n} output-line pushes found in convert")
-    # header lines: every element is a comment or the empty string
+    # header lines: every element is a comment or the empty string; every text formatted inside the header builder is wrapped
+    # by the comment formatter (no ad-hoc line)
     for hid in headers:
         hb = F.bodies[hid]
+        fam = [hb] + [F.bodies[x] for x in F.children(hb.id)]
+        covered, allf = set(), []
+        for x in fam:
+            xt = Terms(F, x, inline_depth=0)
+            for i, t in x.calls():
+                if t["callee"] in comment_ids:
+                    for a in t["args"]:
+                        covered |= {y for y in subterms(xt.operand(a)) if isinstance(y, tuple) and y and y[0] == "call" and y[1].endswith("alloc::fmt::format")}
+                if t["callee"].endswith("alloc::fmt::format"):
+                    allf.append((x, t, xt.call_term(t)))
+        for x, t, term in allf:
+            ok = term in covered
+            rep.ob("R3", f"{hb.short}:formatted-text-is-a-comment", ok, "text formatted for the header is emitted through the comment formatter" if ok else
+                   "the header builder formats a line that does not pass through the comment formatter", x.loc(t["sp"]),
+                   key=f"R3:{hb.short}:raw-header-line")
         htb = Terms(F, hb, inline_depth=0)
         for i, t in hb.calls():
-            if parse_callee(t["callee"])[2] == "push" and "String" in " ".join(t.get("aty") or []):
+            if parse_callee(t["callee"])[2] == "push" and "Vec<alloc::string::String" in (t.get("aty") or [""])[0]:
                 v = htb.operand(t["args"][1])
                 ok = isinstance(v, tuple) and v and v[0] == "call" and (v[1] in lf and lf[v[1]][0] == "comment" or v[1].endswith("String::new"))
                 rep.ob("R3", f"{hb.short}:line", ok, "header line is a comment or blank" if ok else f"header pushes {show(v)[:60]}",
@@ -536,6 +569,38 @@ def sanitised(F, b, tb, term, depth=0):
                 if {10, 13} <= cs or "is_control" in cs:
                     return f"chars().{m}() testing \\n and \\r"
     return None
+
+
+def _loop_sanitiser(F, b, header):
+    """the comment text is copied character by character: every character taken from the input reaches the result only on the
+    default edge of a switch on that character whose explicit cases include \\n and \\r"""
+    blks = dict(b.loops()).get(header)
+    if not blks:
+        return None
+    pushes = [(i, t) for i, t in b.calls() if i in blks and parse_callee(t["callee"])[2] == "push" and "String" in t["callee"]]
+    if not pushes:
+        return None
+    guards = []     # (switch block, otherwise target) of char switches listing 10 and 13
+    for s, t in b.terms_of_kind("switch"):
+        if s in blks and t.get("dty") == "char" and {"10", "13"} <= {v for v, _ in t["targets"]}:
+            guards.append((s, t["otherwise"]))
+    if not guards:
+        return None
+    for i, t in pushes:
+        k = op_const(t["args"][1])
+        if k is not None:
+            continue
+        p = op_place(t["args"][1])
+        defs = [d for d in b.defs().get(p["l"], []) if d[0] == "assign"] if p is not None else []
+        if not defs:
+            return None
+        for d in defs:
+            rv = d[3]["rv"]
+            if rv["k"] == "use" and op_const(rv["op"]) is not None:
+                continue        # a constant replacement character
+            if not any(b.edge_dominates((s, o), d[1]) for s, o in guards):
+                return None
+    return "a character loop that copies a character only when it is neither \\n nor \\r"
 
 
 def _chars_of(t):
@@ -582,6 +647,8 @@ def taint(F, rep, lf):
                 n += 1
                 term = p[1]
                 why = sanitised(F, fb, ftb, term)
+                if why is None and p[2] == "loop":
+                    why = _loop_sanitiser(F, fb, term[2])
                 # a parameter printed raw is tainted unless every caller passes sanitised / constant-only text
                 rooted_param = any(isinstance(x, tuple) and x and x[0] == "param" for x in subterms(term))
                 ok = why is not None or not rooted_param
